@@ -27,7 +27,7 @@ static void write_val(W& w, const E& e) {
 
 // {"op":"pipe","arrays":[{"shape":[..],"data":[..],"dt":"i32|f64"}],"stages":[{"f":..,"in":[..],"a":{..}}],
 //  "mode":"lazy|staged","eval":bool}
-NMV_OP("pipe") {
+static void run_pipe(const J& A, W& w, bool staged, bool do_eval) {
     std::vector<std::shared_ptr<val_t>> vals;
     std::vector<std::shared_ptr<void>> keep;
     for (auto& ja : A["arrays"].a) {
@@ -42,8 +42,7 @@ NMV_OP("pipe") {
             vals.push_back(std::make_shared<val_t>(erase_leaf(leaf)));
         }
     }
-    bool staged = A.has("mode") && A["mode"].as_str() == "staged";
-    opts().eval = A.has("eval") && A["eval"].as_bool();
+    opts().eval = do_eval;
     opts().eval_inferred = !(A.has("no_inferred") && A["no_inferred"].as_bool());
     int failed = -1;
     std::string rt;
@@ -98,6 +97,18 @@ NMV_OP("pipe") {
         w.key("eval_issues").beg_arr(); for (auto& s : issues) w.str(s); w.end_arr();
     }
     opts().eval = false;
+}
+
+
+NMV_OP("pipe") {
+    run_pipe(A, w, A.has("mode") && A["mode"].as_str() == "staged", A.has("eval") && A["eval"].as_bool());
+}
+
+// both evaluation strategies of the same pipeline in one request (C10):
+// lazy chain (with the eval differential at every stage) and staged (materialise after every stage)
+NMV_OP("pipe2") {
+    w.key("lazy").beg_obj(); run_pipe(A, w, false, true); w.end_obj();
+    w.key("staged").beg_obj(); run_pipe(A, w, true, false); w.end_obj();
 }
 
 NMV_OP("vops") {
